@@ -18,7 +18,7 @@ RULE = (
     "refusal; distinct = hash of parameters and layout; non-trivial = >=2 samples in the holder"
 )
 ASSUMPTIONS = ["a value-preserving widening of a parameter dtype on load is accepted, a narrowing never"]
-REQUIRED = {"roundtrips_checked": {"quick": 200, "thorough": 5000}, "samples_compared": {"quick": 2000, "thorough": 50000}, "roundtrips_ge_10_samples": {"quick": 60, "thorough": 1500}, "concats_checked": {"quick": 60, "thorough": 1500}, "cli_runs": {"quick": 20, "thorough": 400}, "refusals_checked": {"quick": 150, "thorough": 3000}, "refused_saves_checked": {"quick": 80, "thorough": 1500}}
+REQUIRED = {"partial_roundtrips_checked": {"quick": 60, "thorough": 1200}, "roundtrips_checked": {"quick": 200, "thorough": 5000}, "samples_compared": {"quick": 2000, "thorough": 50000}, "roundtrips_ge_10_samples": {"quick": 60, "thorough": 1500}, "concats_checked": {"quick": 60, "thorough": 1500}, "cli_runs": {"quick": 20, "thorough": 400}, "refusals_checked": {"quick": 150, "thorough": 3000}, "refused_saves_checked": {"quick": 80, "thorough": 1500}}
 N_CASES = {"quick": 800, "thorough": 9600}
 
 ADV = [5e-324, -5e-324, 1e-310, 0.0, -0.0, 1.0 + 2**-52, 1.0 - 2**-53, 0.1, 1e300, -1e300, 1e-300, 16777217.0, 3.141592653589793, 2.0**-150]
@@ -160,6 +160,34 @@ def run_shard(rec, tier, seed, shard, nshards):
                         rec.did_not_return("predict", e)
             if not ok_all:
                 continue
+            # ---------------- a collection saved while only partly filled (a checkpoint of a running chain)
+            if ci % 3 == 0:
+                held = list(chains[0].thetas)
+                declared = len(held) + int(rng.integers(1, 4))
+                part = ThetaHolder(n_thetas=declared)
+                for t_ in held:
+                    part.add_theta(t_)
+                fnp = os.path.join(tmp, "th_partial.h5")
+                rec.case(("partial", kind, len(held), declared), nontrivial=len(held) >= 2)
+                try:
+                    part.save_h5(fnp)
+                    Lp = ThetaHolder.load_h5(fnp)
+                except Exception as e:
+                    rec.violation("C10/roundtrip/raises", "save/load of a collection holding %d of %d declared samples raised %r" % (len(held), declared, e), w)
+                else:
+                    rec.count("partial_roundtrips_checked")
+                    rec.check(len(Lp.thetas) == len(held) and all(t_ is not None for t_ in Lp.thetas) and int(Lp.n_thetas) == declared and not bool(Lp.is_complete), "C10/roundtrip/count", lambda: "a collection holding %d of %d declared samples came back with %d entries (%d of them empty), declared %r, complete=%r" % (len(held), declared, len(Lp.thetas), sum(1 for t_ in Lp.thetas if t_ is None), Lp.n_thetas, Lp.is_complete), w)
+                    for s_, (a, b) in enumerate(zip(held, Lp.thetas)):
+                        if b is None or same_params(a, b) is not None:
+                            rec.violation("C10/roundtrip/parameter-differs", "partial collection: sample %d differs after load" % s_, w)
+                            break
+                    try:
+                        Lp.get_theta(len(held))
+                        rec.violation("C10/refusal/accepted", "get_theta(%d) of a reloaded collection that holds %d samples was accepted" % (len(held), len(held)), w)
+                    except ValueError:
+                        pass
+                    except Exception as e:
+                        rec.violation("C10/refusal/wrong-exception", "get_theta beyond the held samples raised %r instead of ValueError" % (e,), w)
             # ---------------- chain-major concatenation
             for src, what in ((chains, "in-memory"), (loaded, "loaded")):
                 try:
